@@ -898,6 +898,11 @@ def replay(cfg, label, env, case):
     fails = LAST["chk"].fails if "chk" in LAST else {}
     if label.startswith("exception:"):
         return dict(reproduced=False, detail="no exception on the real code")
+    if label == "*":          # any clause failing on the real library with these numbers (used by the runner's fallbacks)
+        if fails:
+            first = sorted(fails)[0]
+            return dict(reproduced=True, detail=dict(clause=first, observed=fails[first], other_failing=[k for k in sorted(fails)[1:7]]))
+        return dict(reproduced=False, detail="every clause holds on the real library")
     if label in fails:
         return dict(reproduced=True, detail=dict(clause=label, observed=fails[label], inputs=inputs(),
                                                  other_failing=[k for k in fails if k != label][:6]))
